@@ -157,15 +157,23 @@ def e2e_spec(c, st):
 E2E_HEADER = ["from dataclasses import dataclass, field", "from apischema import validator, ValidationError, alias", "LOG = []", ""]
 
 
-def run_e2e(mod, c, d):
+def _al(s): return "al_" + s
+
+
+def run_e2e(mod, c, d, aliased=False):
+    """`aliased`: the same datum with every key renamed by a dynamic aliaser, deserialized under that aliaser; the locations
+    are reported with the renaming undone (so that the expected result does not depend on it)"""
     from apischema import deserialize, ValidationError
     mod.LOG.clear()
     lim = sys.getrecursionlimit(); sys.setrecursionlimit(600)
+    kw = {"aliaser": _al} if aliased else {}
+    if aliased: d = {_al(k): v for k, v in d.items()}
+    unal = (lambda loc: [x[3:] if isinstance(x, str) and x.startswith("al_") else ("UNALIASED:" + x if isinstance(x, str) else x) for x in loc]) if aliased else list
     try:
-        v = deserialize(getattr(mod, c["cls"]), dict(d))
+        v = deserialize(getattr(mod, c["cls"]), dict(d), **kw)
         return {"ran": [j for (_, j) in mod.LOG], "errs": [], "built": True}
     except ValidationError as e:
-        return {"ran": [j for (_, j) in mod.LOG], "errs": sorted(([list(x["loc"]), x["err"]] for x in e.errors), key=json.dumps), "built": False}
+        return {"ran": [j for (_, j) in mod.LOG], "errs": sorted(([unal(x["loc"]), x["err"]] for x in e.errors), key=json.dumps), "built": False}
     except RecursionError:
         return {"crash": "RecursionError"}
     except Exception as e:
@@ -203,12 +211,14 @@ def run(prop, seed, budget, ctx):
     for c in classes:
         for _ in range(8):
             d, st = gen_datum(rnd, c); n2 += 1
-            r = run_e2e(mod, c, d); s = e2e_spec(c, st)
+            aliased = rnd.random() < 0.4
+            if aliased: hist["e2e:under-a-dynamic-aliaser"] += 1
+            r = run_e2e(mod, c, d, aliased); s = e2e_spec(c, st)
             hist["e2e:" + ("crash" if "crash" in r else "built" if r["built"] else "rejected")] += 1
             if len(c["validators"]) > 1: distinct.add(case_hash(c["src"], d))
             if len(samples) < 6: samples.append({"class": c["src"], "datum": d, "real": r})
             if r != s:
-                failures.append({"part": "deserialize", "cls": c["cls"], "src": c["src"], "datum": d, "states": st, "real": r, "spec": s,
+                failures.append({"part": "deserialize", "cls": c["cls"], "src": c["src"], "datum": d, "states": st, "real": r, "spec": s, "aliased": aliased,
                                  "validators": c["validators"], "fields": c["fields"], "kind": "P", "k_ok": None,
                                  "why": ["validation-does-not-terminate" if "crash" in r else "invoked-validators-or-merged-errors-differ-from-the-specification"]})
     # part 3: errors yielded with paths: the path (a key, an index - 0 included -, a sequence of them, or nothing) is where the
@@ -248,6 +258,25 @@ def run(prop, seed, budget, ctx):
             "failures": failures}
 
 
+def e2e_locations(seed, budget):
+    """used by the C02 check: validator classes deserialized under a dynamic aliaser; every error location (structural or
+    yielded / raised by a validator, before or after an earlier validator failed) is the aliased path"""
+    rnd = random.Random(seed * 17 + 9); ncls = 60 * budget
+    classes = [gen_class(rnd, 500_000 + i) for i in range(ncls)]
+    mod = build_module(E2E_HEADER + [l for c in classes for l in c["src"] + [""]], f"valloc{seed}")
+    failures, n, distinct = [], 0, set()
+    for c in classes:
+        for _ in range(8):
+            d, st = gen_datum(rnd, c); n += 1
+            r = run_e2e(mod, c, d, True); s = e2e_spec(c, st)
+            if len(c["validators"]) > 1: distinct.add(case_hash(c["src"], d))
+            if "crash" not in r and r["errs"] != s["errs"]:
+                failures.append({"part": "deserialize", "cls": c["cls"], "src": c["src"], "datum": d, "states": st, "real": r, "spec": s, "aliased": True,
+                                 "validators": c["validators"], "fields": c["fields"], "kind": "P", "k_ok": None,
+                                 "why": ["error-location-is-not-the-aliased-path"]})
+    return failures, n, distinct
+
+
 def is_known(kid, case):
     return False
 
@@ -265,5 +294,5 @@ def replay(prop, case, ctx):
         return {"real": r, "spec": s, "fails": "crash" in r or norm(r) != s}
     mod = build_module(E2E_HEADER + case["src"], "valreplay")
     c = {"cls": case["cls"], "validators": case["validators"], "fields": case["fields"]}
-    r = run_e2e(mod, c, case["datum"]); s = e2e_spec(c, case["states"])
+    r = run_e2e(mod, c, case["datum"], case.get("aliased", False)); s = e2e_spec(c, case["states"])
     return {"real": r, "spec": s, "fails": r != s}
